@@ -878,7 +878,7 @@ def filter_literal(
 
     elif isinstance(ty, pydsdl.IntegerType):
         out = (
-            str(value)
+            (str(value) if value != -(2**63) else "-9223372036854775807LL - 1")  # INT64_MIN has no signed literal in C
             + "U" * isinstance(ty, pydsdl.UnsignedIntegerType)
             + "L" * (ty.bit_length > 16)
             + "L" * (ty.bit_length > 32)
